@@ -155,6 +155,7 @@ func TestC11_FullPath(t *testing.T) {
 			co.Events = []*refmodel.Event{d.Event}
 		}
 		node := sim.NewNode(sim.NewChain())
+		node.ReverseReceiptBatches = rapid.IntRange(0, 2).Draw(rt, "reversedreceipts") == 0
 		neg := false
 		for i := 0; i < rapid.IntRange(1, 3).Draw(rt, "nblocks"); i++ {
 			txs := gen.GenTxs(rt, co)
